@@ -75,6 +75,39 @@ def r2_none_policy(rep, facts):
             rep.check(R, f'{d}|propagates', bool(tries) or delegates, 'value.serialize(..)? / delegation', f'`{d}` does not propagate element errors', facts.loc(b))
 
 
+def r2b_flag_locality(rep, facts):
+    R = rep.rule('C07/R2b', 'the "value was None" flag describes the immediate value only: the flag-carrying serializer (&mut MapValueSerializer) never '
+                 'hands itself on to a nested value — every method either writes the flag (serialize_none) or delegates to a fresh serializer', floor=28)
+    impls = sm.ser_impls(facts)
+    ty = '&mut toml_edit::ser::map::MapValueSerializer'
+    if ty not in impls:
+        rep.incomplete(R, ty, 'impl Serializer for &mut MapValueSerializer not found')
+        return
+    for m, d in sorted(impls[ty].items()):
+        if not facts.has_body(d) or not m.startswith('serialize_'):
+            continue
+        uses = sm.self_uses(facts, d)
+        passed = [u for u in uses if u[0] in ('passed-on', 'method')]
+        writes = [u for u in uses if u[0] == 'field-write']
+        ok = not passed and (not writes or m == 'serialize_none')
+        rep.check(R, f'{ty}|{m}', ok, 'self not handed on' + (f', writes {writes[0][1]}' if writes else ''),
+                  f'`MapValueSerializer::{m}` {"hands `self` (with its is_none flag) to " + passed[0][1] if passed else "writes the flag"}: a None nested inside the value '
+                  f'(e.g. Some(None)) then marks the whole field as absent and the entry is silently skipped', facts.loc(facts.body(d)))
+
+
+def r7_forwarding(rep, facts, rid='C07/R7', traits=(sm.SER,)):
+    R = rep.rule(rid, 'same-name delegation forwards parameters positionally: when a method of a serde front-end impl calls the method of the same name '
+                 'on an inner (de)serializer, each of its own parameters is passed at the position it was received (name / variant / index are all '
+                 'plain strings and integers, so a swap type-checks)', floor=70)
+    for d, ty, m, node, pairs, pnames in sm.same_name_delegations(facts, traits):
+        swapped = [(pnames[pi], pi, ai) for pi, ai in pairs if pi != ai]
+        nargs = len(node.get('args', []))
+        ok = not swapped and (nargs == len(pnames))
+        rep.check(R, f'{ty}|{m}', ok, f'{len(pairs)} parameter(s) forwarded in place',
+                  f'`{ty}::{m}` forwards ' + (', '.join(f'`{n}` (parameter {pi + 1}) as argument {ai + 1}' for n, pi, ai in swapped) if swapped else f'{nargs} arguments for {len(pnames)} parameters') +
+                  ' to the inner method of the same name: e.g. a variant is written under the enum\'s type name', facts.loc(facts.body(d)))
+
+
 def r3_promotion(rep, facts):
     R = rep.rule('C07/R3', 'formatting visitors promote inline tables / arrays to [table] / [[table]] only outside values: in every override of '
                  'VisitMut::visit_item_mut the promotion is guarded by the "parent is a value" flag, the flag is set from the node and restored after the recursion', floor=8)
@@ -166,6 +199,8 @@ def rules(rep, facts):
         return
     r1_outcomes(rep, facts)
     r2_none_policy(rep, facts)
+    r2b_flag_locality(rep, facts)
+    r7_forwarding(rep, facts)
     r3_promotion(rep, facts)
     r4_container_typing(rep, facts)
     r6_option_mirror(rep, facts)
